@@ -859,6 +859,19 @@ class name_BradleyTerry(BallotGenerator):
         current_ranking = list(seed_ballot.ranking)
         num_candidates = len(current_ranking)
 
+        # a single supported candidate leaves no adjacent pair to swap: the chain never moves
+        if num_candidates < 2:
+            ranking = (
+                current_ranking + [zero_cands]
+                if len(zero_cands) > 0
+                else current_ranking
+            )
+            return PreferenceProfile(
+                ballots=[Ballot(ranking=ranking, weight=Fraction(num_ballots))]
+                if num_ballots > 0
+                else []
+            )
+
         # presample swap indices
         swap_indices = [
             (j1, j1 + 1)
